@@ -13,7 +13,8 @@ from e1_paths import CFG, peel_cond, single_def
 from report import Check
 
 UNITS = ["src/Neigh/ANeigh.cpp", "src/Neigh/NeighMoving.cpp", "src/Neigh/NeighBench.cpp", "src/Neigh/NeighCell.cpp",
-         "src/Neigh/NeighUnique.cpp", "src/Neigh/NeighImage.cpp", "src/Tree/neighbors_heap.cpp", "src/Tree/ball_algorithm.cpp"]
+         "src/Neigh/NeighUnique.cpp", "src/Neigh/NeighImage.cpp", "src/Tree/neighbors_heap.cpp", "src/Tree/ball_algorithm.cpp",
+         "src/Tree/KNN.cpp", "src/Geometry/BiTargetCheckDistance.cpp", "src/Db/Db.cpp"]
 
 # function -> (candidate variable, required gates).  Gate names are resolved by GATES below.
 TABLE = {
@@ -538,4 +539,9 @@ def main(tier):
     distance_use_rule(prog, chk)
     attach_rule(prog, chk)
     ball_population_rule(prog, chk)
+    import c06_more
+    c06_more.stated_bound_rule(prog, chk)
+    c06_more.suffix_rule(prog, chk)
+    c06_more.space_target_rule(prog, chk)
+    c06_more.dimension_rule(prog, chk)
     return chk.finish()
